@@ -200,7 +200,7 @@ def worker(args):
                 rec.violation("path_outside_root", cc, ps)
             rels[c] = rel
             if len(pathmap) < args.get("pathmap_cap", 1200):
-                pathmap[x.uri + "|" + c] = rel
+                pathmap[x.uri + "|" + c] = ps        # (the WHOLE path: both processes of a pair read the same configuration files)
         # (only configurations that share templates and vocabulary are expected to differ by the root alone)
         for sig in set(signature.values()):
             grp = {c: r for c, r in rels.items() if signature[c] == sig}
